@@ -150,3 +150,13 @@ Example C07_ex_offset_extremes :
                   (enc_offset_value 3 (mkOV (-9223372036854775808) (-1) None 9223372036854775807 0)) 42
   = Done [SetConsumerOffset [103] [] (-1) (-9223372036854775808) 9223372036854775807 42] [1].
 Proof. exact offset_roundtrip_example. Qed.
+
+(* The side condition "topic names pairwise distinct within one member" is needed: the decoder collects a member's topics
+   in a Go map, so of two entries with the same name only the later one is kept (no Kafka client writes such an
+   assignment: the serializer groups partitions by topic). *)
+Example C07_ex_repeated_topic_later_wins :
+  process_message (fun _ => true) (enc_meta_key b_g)
+    (enc_meta_value 1 (mkMV b_consumer 1 None None 0
+       [mkWM b_cid1 None b_cid1 b_host1 0 0 None (Asg (mkAsg 0 [(b_t1, [0]); (b_t1, [1])] None))])) 0
+  = Done [SetConsumerOwner (str_val b_g) (str_val b_t1) 1 (str_val b_host1) (str_val b_cid1)] [1; 8; 2; 2; 9; 96; 2; 4; 2; 4].
+Proof. vm_compute. reflexivity. Qed.
